@@ -5,7 +5,8 @@
 (* Lagrangian Hessian, each only if its flag is set) and the column loop   *)
 (* of deriv_check (first wrong column raises, reporting exactly the wrong  *)
 (* rows).  A case is a set of at most two wrong entries, each with a       *)
-(* magnitude class: "above" (more than the tolerance: must be reported)    *)
+(* magnitude class: "above"/"aboveNeg" (off by more than the tolerance, up or *)
+(* down: must be reported)                                                 *)
 (* or "below" (far below the tolerance: must pass).  n = 2 variables,      *)
 (* m = 2 constraints.  Final states are the expected outcomes, replayed    *)
 (* through Solver.solve on problems with exactly those wrong entries.      *)
@@ -18,13 +19,14 @@ Stages(fl) == CASE fl = "CheckFirst" -> <<"grad", "jac">> [] fl = "CheckSecond" 
                 [] fl = "CheckAll" -> <<"grad", "jac", "hess">> [] OTHER -> <<>>
 Rows(st) == IF st = "grad" THEN {1} ELSE {1, 2}
 Entries == {[which |-> w, i |-> i, j |-> j, mag |-> mg] :
-              w \in {"grad", "jac", "hess"}, i \in 1..2, j \in 1..2, mg \in {"above", "below"}}
+              w \in {"grad", "jac", "hess"}, i \in 1..2, j \in 1..2, mg \in {"above", "aboveNeg", "below"}}
 WF(e) == e.i \in Rows(e.which)
 ErrSets == {S \in SUBSET {e \in Entries : WF(e)} : Cardinality(S) <= 2 /\
               \A e, f \in S : (e.which = f.which /\ e.i = f.i /\ e.j = f.j) => e = f}
 Flags == {"NoCheck", "CheckFirst", "CheckSecond", "CheckAll"}
 
-Wrong(c, st, k) == {e.i : e \in {f \in c.errs : f.which = st /\ f.j = k /\ f.mag = "above"}}
+Big(e) == e.mag \in {"above", "aboveNeg"}      \* wrong by more than the tolerance, in either direction
+Wrong(c, st, k) == {e.i : e \in {f \in c.errs : f.which = st /\ f.j = k /\ Big(f)}}
 
 V(k) == [kind |-> k, stage |-> "none", col |-> 0, rows |-> {}]
 Init == /\ cs \in [flags : Flags, errs : ErrSets]
@@ -43,7 +45,7 @@ Step ==
 Spec == Init /\ [][Step]_<<cs, si, col, verdict, work>>
 
 Done == verdict.kind # "running"
-Enabled(c) == {e \in c.errs : e.mag = "above" /\ \E k \in 1..Len(Stages(c.flags)) : Stages(c.flags)[k] = e.which}
+Enabled(c) == {e \in c.errs : Big(e) /\ \E k \in 1..Len(Stages(c.flags)) : Stages(c.flags)[k] = e.which}
 StageIdx(c, w) == CHOOSE k \in 1..Len(Stages(c.flags)) : Stages(c.flags)[k] = w
 Before(c, e, f) == StageIdx(c, e.which) < StageIdx(c, f.which) \/ (e.which = f.which /\ e.j < f.j)
 
